@@ -46,7 +46,7 @@ func genC12(seed uint64, tier string) *plan.Plan {
 	horizon := int64(0)
 	for c := 0; c < nc; c++ {
 		op := plan.Op{K: "client", T: c, A: int64(r.IntN(50)), B: int64(1 + r.IntN(8)), C: int64(1 + r.IntN(3)), D: int64(r.IntN(20000)),
-			S: []string{"close", "close", "abort", "stay"}[r.IntN(4)]}
+			S: []string{"close", "close", "abort", "stay", "mute"}[r.IntN(5)]}
 		if r.IntN(3) == 0 {
 			op.D = 0 // burst
 		}
@@ -159,6 +159,19 @@ func runC12(pl *plan.Plan, out *plan.Outcome) {
 		env.Go(fmt.Sprintf("client%d", op.T), func() {
 			defer func() { clientDone <- op.T }()
 			env.Sleep(time.Duration(op.A)*time.Millisecond + time.Millisecond)
+			if op.S == "mute" && tr != 1 {
+				// connects and never says anything (over tls: not even a handshake) until Stop
+				var c net.Conn
+				var err error
+				Block("dial", func() { c, err = env.Net.Dial("tcp", addr) })
+				if err != nil {
+					return
+				}
+				env.Count("fault.mute_client", 1)
+				Block("stay", func() { <-stay })
+				c.Close()
+				return
+			}
 			tm := c12Template(op.T)
 			var conn net.Conn
 			var err error
@@ -239,14 +252,14 @@ func runC12(pl *plan.Plan, out *plan.Outcome) {
 			// wait for every client that does not "stay"
 			need := 0
 			for _, op := range clients {
-				if op.S != "stay" {
+				if op.S != "stay" && op.S != "mute" {
 					need++
 				}
 			}
 			for i := 0; i < need; {
 				var c int
 				Block("join", func() { c = <-clientDone })
-				if clients[c].S != "stay" {
+				if clients[c].S != "stay" && clients[c].S != "mute" {
 					i++
 				}
 			}
@@ -265,7 +278,7 @@ func runC12(pl *plan.Plan, out *plan.Outcome) {
 			if tr != 1 {
 				allClosed := true
 				for _, op := range clients {
-					if op.S == "stay" {
+					if op.S == "stay" || op.S == "mute" {
 						allClosed = false
 					}
 				}
